@@ -82,7 +82,10 @@ def write_file(setup, path):
     lab.make_grid_forcing(path, [0, 640], imax=IMAX, jmax=JMAX, N=N, h=setup["h"], mask=setup["mask"],
                           u=lambda t, k, j, i: U[k, j, i], v=lambda t, k, j, i: V[k, j, i],
                           scal=dict(temp=lambda t, k, j, i: S[k, j, i]), dx=128.0, hc=setup["hc"],
-                          Cs_r=setup["Cs_r"], vtransform=setup["vt"], scale_uv=scale)
+                          Cs_r=setup["Cs_r"], vtransform=setup["vt"], scale_uv=scale,
+                          # the scalar too may be stored packed: as 16-bit integers, or as floats with an offset only
+                          # (scale_factor 1: degrees Celsius kept as Kelvin) — the values are halves, nothing is lost
+                          scal_pack=dict(temp=[(0.5, 16.0, "i2"), (1.0, 64.0, "f4")][setup["seed"] % 2]) if setup["packed"] else None)
 
 
 def points_for(sub, r, h, N):
